@@ -268,6 +268,15 @@ def directed_cases():
             ops += writer_prefix(0, 1, 10, 8) + writer_prefix(0, 1, 20, 8) + writer_prefix(0, 2, 30, 8)
             ops += [("s", 1, c) for c in ch] + [("s", 1, 9)] * 3 + [("s", 1, 0)] * 12
             out.append(fmt(ops))
+    # racing writers: A has taken k steps of update(tA) when B starts (and, if it can, completes) update/try_update(tB);
+    # then both run to completion and a third thread reads.  Whatever A did before it queued on the lock, an update that
+    # is stale by the time it holds the lock must store nothing.
+    for k in range(0, 10):
+        for (ta, tb) in ((10, 20), (20, 10), (10, 10), (10, 11)):
+            for kindb in (1, 2):
+                ops = [("c", 0, 1, ta)] + [("s", 0, 0)] * k + [("c", 2, kindb, tb)] + [("s", 2, 0)] * 10
+                ops += [("s", 0, 0)] * 10 + [("s", 2, 0)] * 10 + [("c", 1, 0, 0)] + [("s", 1, 0)] * 6
+                out.append(fmt(ops))
     # stale update; equal base time; update after try
     for t2 in (3, 10, 11):
         for kind in (1, 2):
